@@ -307,7 +307,8 @@ def build(ctx):
     C = ctx
     t = P.HEADER
     t += P.peer_types(C) + P.event_types(C)
-    t += P.STD_SPECS + P.PEER_ID_AXIOMS + P.CONNECTION_STANDIN + P.BROADCAST_STANDIN
+    t += P.STD_SPECS + P.TIME_STANDIN + P.PEER_ID_AXIOMS + P.CONNECTION_STANDIN + P.BROADCAST_STANDIN
+    C.helper_rewrites = [dict(rule='X5', pattern='std::time::', repl=''), dict(rule='X5', pattern='std::cmp::', repl='cmp::')]
     # struct with the ghost close log (X7) and the broadcast stand-in (X5)
     t += C.item(CM, 'struct ActivePeersInner', rewrites=[
         ('X5', 'broadcast::Sender<PeerEvent>', 'Sender', 1),
@@ -399,34 +400,42 @@ def build(ctx):
     # unique borrow.  The wrappers then only borrow-check if every mutation goes through ONE write-lock acquisition.
     t += """
 // ---------- trusted stand-in: Arc<RwLock<ActivePeersInner>> (mutual exclusion of std::sync::RwLock is assumed) ----------
-pub struct ActivePeers(pub ActivePeersInner);
+pub struct ActivePeers(pub ActivePeersInner, pub Ghost<nat>);   // .1 = number of lock acquisitions so far (ghost)
 impl ActivePeers {
-    pub fn inner(&self) -> (r: &ActivePeersInner) ensures *r == self.0 { &self.0 }
-    pub fn inner_mut(&mut self) -> (r: &mut ActivePeersInner) ensures *r == old(self).0, *final(r) == final(self).0 { &mut self.0 }
+    pub fn inner(&mut self) -> (r: &ActivePeersInner) ensures *r == old(self).0, final(self).0 == old(self).0, final(self).1@ == old(self).1@ + 1
+    { proof { self.1@ = self.1@ + 1; } &self.0 }
+    pub fn inner_mut(&mut self) -> (r: &mut ActivePeersInner) ensures *r == old(self).0, *final(r) == final(self).0, final(self).1@ == old(self).1@ + 1
+    { proof { self.1@ = self.1@ + 1; } &mut self.0 }
 """
     W = 'impl ActivePeers :: fn '
-    t += C.fn(CM, W + 'subscribe', 'ActivePeers::subscribe', ['C04'], ret='r', rewrites=[('X5', 'broadcast::Receiver<PeerEvent>', 'Receiver', 1)], spec="""
+    t += C.fn(CM, W + 'subscribe', 'ActivePeers::subscribe', ['C04'], ret='r', rewrites=[('X5', 'broadcast::Receiver<PeerEvent>', 'Receiver', 1)], sig_rewrites=[('&self', '&mut self')], spec="""
     ensures
-        r.0.start@ == self.0.peer_event_sender.log@.len() && r.1@.to_set() =~= self.0.connections@.dom() && r.1@.no_duplicates(), // @OBL ActivePeers::subscribe::delegates [C04] subscribe() takes snapshot and receiver under one lock acquisition
+        final(self).1@ == old(self).1@ + 1, // @OBL ActivePeers::subscribe::one_critical_section [C04] the whole operation is ONE critical section: exactly one lock acquisition (no check-then-act across two)
+        r.0.start@ == old(self).0.peer_event_sender.log@.len() && r.1@.to_set() =~= old(self).0.connections@.dom() && r.1@.no_duplicates(), // @OBL ActivePeers::subscribe::delegates [C04] subscribe() takes snapshot and receiver under one lock acquisition
 """)
-    t += C.fn(CM, W + 'get', 'ActivePeers::get', ['C04', 'C09'], ret='r', spec="""
+    t += C.fn(CM, W + 'get', 'ActivePeers::get', ['C04', 'C09'], ret='r', sig_rewrites=[('&self', '&mut self')], spec="""
     ensures
-        r == (if self.0.connections@.contains_key(*peer_id) { Some(self.0.connections@[*peer_id]) } else { None::<Connection> }), // @OBL ActivePeers::get::delegates [C04,C09] get() is the lookup in the locked set
+        final(self).1@ == old(self).1@ + 1, // @OBL ActivePeers::get::one_critical_section [C04] the whole operation is ONE critical section: exactly one lock acquisition (no check-then-act across two)
+        r == (if old(self).0.connections@.contains_key(*peer_id) { Some(old(self).0.connections@[*peer_id]) } else { None::<Connection> }), // @OBL ActivePeers::get::delegates [C04,C09] get() is the lookup in the locked set
 """)
-    t += C.fn(CM, W + 'len', 'ActivePeers::len', ['C04', 'C10'], ret='r', spec="""
+    t += C.fn(CM, W + 'len', 'ActivePeers::len', ['C04', 'C10'], ret='r', sig_rewrites=[('&self', '&mut self')], spec="""
     ensures
-        r == self.0.connections@.dom().len(), // @OBL ActivePeers::len::delegates [C04,C10] len() is the size of the locked set
+        final(self).1@ == old(self).1@ + 1, // @OBL ActivePeers::len::one_critical_section [C04] the whole operation is ONE critical section: exactly one lock acquisition (no check-then-act across two)
+        r == old(self).0.connections@.dom().len(), // @OBL ActivePeers::len::delegates [C04,C10] len() is the size of the locked set
 """)
     t += C.fn(CM, W + 'remove', 'ActivePeers::remove', ['C04', 'C09'], sig_rewrites=[('&self', '&mut self')], spec="""
     ensures
+        final(self).1@ == old(self).1@ + 1, // @OBL ActivePeers::remove::one_critical_section [C04] the whole operation is ONE critical section: exactly one lock acquisition (no check-then-act across two)
         final(self).0.view() =~~= rm_spec(old(self).0.view(), *peer_id, reason), // @OBL ActivePeers::remove::delegates [C04,C09] remove() is exactly the inner transition, under one write-lock acquisition
 """)
     t += C.fn(CM, W + 'remove_with_stable_id', 'ActivePeers::remove_with_stable_id', ['C04', 'C05'], sig_rewrites=[('&self', '&mut self')], spec="""
     ensures
+        final(self).1@ == old(self).1@ + 1, // @OBL ActivePeers::remove_with_stable_id::one_critical_section [C04,C05] the whole operation is ONE critical section: exactly one lock acquisition (no check-then-act across two)
         final(self).0.view() =~~= rm_sid_spec(old(self).0.view(), peer_id, stable_id, reason), // @OBL ActivePeers::remove_with_stable_id::delegates [C04,C05] remove_with_stable_id() is exactly the inner transition, under one write-lock acquisition
 """)
     t += C.fn(CM, W + 'add', 'ActivePeers::add', ['C04', 'C05', 'C03'], ret='r', sig_rewrites=[('&self', '&mut self')], spec="""
     ensures
+        final(self).1@ == old(self).1@ + 1, // @OBL ActivePeers::add::one_critical_section [C04,C05] the whole operation is ONE critical section: exactly one lock acquisition (no check-then-act across two)
         ({
             let pre = old(self).0.view();
             let c = new_connection;
@@ -488,4 +497,4 @@ impl JoinSet { #[verifier::external_body] pub async fn shutdown(&mut self) { uni
 
 
 def _fn_with(C, rel, path, key, props, ret, spec, body_prefix, transforms):
-    return C.fn(rel, path, key, props, ret=ret, spec=spec, body_prefix=body_prefix, transforms=transforms)
+    return C.fn(rel, path, key, props, ret=ret, spec=spec, body_prefix=body_prefix, transforms=transforms, optional=(key == 'ActivePeersInner::remove_with_stable_id'))
